@@ -10,7 +10,9 @@ HARNESS = os.environ.get("VERIF_HARNESS_DIR", os.path.join(ROOT, "harness"))
 WORK = os.environ.get("VERIF_WORK_DIR", os.path.join(ROOT, "work"))
 EVID = os.environ.get("VERIF_EVID_DIR", os.path.join(ROOT, "evidence"))
 BIN = os.path.join(HARNESS, "target", "release", "circ-conf")
-TLC_WORKERS = int(os.environ.get("VERIF_TLC_WORKERS", "8"))
+TLC_WORKERS = int(os.environ.get("VERIF_TLC_WORKERS", "12"))
+# per-action coverage statistics double TLC's run time: collected in the thorough tier only (set by tools/check)
+COVERAGE = False
 
 
 class ToolError(Exception):
@@ -66,7 +68,7 @@ def run_tlc_design(cfg, spec, timeout_s, workers=None, simulate=None, extra=None
     shutil.rmtree(meta, ignore_errors=True)
     os.makedirs(meta, exist_ok=True)
     cmd = ["timeout", str(timeout_s), "tlc", "-workers", str(workers or TLC_WORKERS), "-metadir", meta, "-cleanup",
-           "-noGenerateSpecTE", "-coverage", "1", "-config", cfg]
+           "-noGenerateSpecTE"] + (["-coverage", "1"] if COVERAGE else []) + ["-config", cfg]
     if simulate:
         cmd += ["-simulate", simulate]
     if extra:
